@@ -95,6 +95,39 @@ def work(job):
         build_layout.exts = exts
         src, names = build_layout(box, rnd, srcrel)
         os.makedirs(os.path.join(box.proj, "a"), exist_ok=True)
+        wrap = None
+        mnt_ext = None
+        if i % 6 == 1:
+            # a mount point inside the source tree: a directory of another file system (other st_dev) bind-mounted below
+            # source_dir in a private mount namespace. Check mode only - replacing a file there from a TMPDIR on this file
+            # system is a genuine cross-device rename, which is C08's subject.
+            import shutil
+            mnt_ext = "/var/tmp/vf-mnt-%d-%d-%d" % (os.getpid(), seed, i)
+            shutil.rmtree(mnt_ext, ignore_errors=True)
+            for rel in ("gen.rs", "pkg/deeper/mod.rs", "notes.txt"):
+                os.makedirs(os.path.dirname(os.path.join(mnt_ext, rel)), exist_ok=True)
+                with open(os.path.join(mnt_ext, rel), "wb") as f:
+                    f.write(STMT)
+            os.makedirs(os.path.join(src, "mnt"))
+            names += ["mnt/gen.rs", "mnt/pkg/deeper/mod.rs", "mnt/notes.txt"]
+            wrap = ["unshare", "-m", "sh", "-c", 'mount --bind "$1" "$2" || exit 97; shift 2; exec "$@"', "sh", mnt_ext, os.path.join(src, "mnt")]
+            mode = "check"
+        special = []
+        if i % 6 == 3:
+            # entries that are not regular files but carry a configured extension: a named pipe (nobody writes to it: opening it
+            # for reading would block for ever) and a Unix socket
+            import socket as _socket
+            fifo = os.path.join(src, "events_pipe." + exts[0])
+            os.mkfifo(fifo)
+            sk = _socket.socket(_socket.AF_UNIX)
+            sockp = os.path.join(src, "ctl_socket." + exts[0])
+            try:
+                sk.bind(sockp)
+                special.append(sockp)
+            except OSError:
+                pass
+            sk.close()
+            special.append(fifo)
         if sform == "symlink_dotdot":
             # `lnk` is a symlink to a directory elsewhere: the operating system resolves lnk/.. to the parent of the link's
             # *target* (proj/realhome), not to the directory that holds the link; a src/ next to the link is a trap
@@ -135,8 +168,16 @@ def work(job):
                 cwdk = "config_dir"
             carg = "Breadlog.yaml"
         before = core.snapshot(box.root)
-        r = core.run_breadlog(built, box, cfgp, check=(mode == "check"), cwd=cwd, cfg_arg=carg, shim=True)
+        r = core.run_breadlog(built, box, cfgp, check=(mode == "check"), cwd=cwd, cfg_arg=carg, shim=True, wrap=wrap,
+                              timeout=25 if special else 120)
         after = core.snapshot(box.root)
+        if mnt_ext:
+            import shutil
+            shutil.rmtree(mnt_ext, ignore_errors=True)
+            if r.rc == 97 or "unshare" in r.err:
+                res["counters"]["mount_namespace_unavailable"] = 1
+                return res
+            res["counters"]["runs_with_a_mount_point_inside_source_dir"] = 1
         root = box.root
         proj = box.proj
 
@@ -146,6 +187,16 @@ def work(job):
             return os.path.relpath(os.path.join(os.path.realpath(os.path.dirname(p)), os.path.basename(p)), os.path.realpath(root))
         opened_list = [real_rel(o["path"]) for o in (r.shim or []) if o["kind"] in ("openr", "openw") and o["path"].startswith(root + "/")]
         reported_list = [real_rel(path) for path, line, col in r.missing()] if mode == "check" else []
+    special_opened = sorted(os.path.relpath(p_, root) for p_ in special
+                            if any(o["path"] == p_ and o["kind"] in ("openr", "openw") for o in (r.shim or [])))
+    if special_opened:
+        res["violations"].append({"signature": "C15.non-regular-file-opened|%s" % mode,
+                                  "detail": {"paths": special_opened, "ended": r.ended(), "timed_out": r.timed_out},
+                                  "case": {"seed": seed, "i": i}})
+        res["nontrivial"].append("%s|%s|%s|%s|%s|special" % ("+".join(exts), sform, cform, cwdk, mode))
+        return res
+    if special:
+        res["counters"]["runs_with_pipe_and_socket_named_like_sources"] = 1
     if r.panicked() or r.timed_out:
         res["inconclusive"]["run-crashed (C17's business)"] = 1
         return res
